@@ -17,6 +17,8 @@ type Ledger struct {
 	mu          sync.Mutex
 	inner       restful.CompressorProvider
 	acq, rel    int
+	rdAcq       int // of acq / rel: the readers
+	rdRel       int
 	bad         int
 	outstanding map[interface{}]bool
 	// Keep: released objects are handed back as they are (as the library's own providers do), so that
@@ -34,6 +36,13 @@ func (l *Ledger) Snapshot() (int, int, int) {
 	l.mu.Lock()
 	defer l.mu.Unlock()
 	return l.acq, l.rel, l.bad
+}
+
+// SnapshotReaders: how many of the acquisitions and releases were readers.
+func (l *Ledger) SnapshotReaders() (int, int) {
+	l.mu.Lock()
+	defer l.mu.Unlock()
+	return l.rdAcq, l.rdRel
 }
 
 func (l *Ledger) Outstanding() int {
@@ -79,12 +88,26 @@ func (l *Ledger) ReleaseGzipWriter(w *gzip.Writer) {
 	l.inner.ReleaseGzipWriter(w)
 }
 func (l *Ledger) AcquireGzipReader() *gzip.Reader {
+	// a provider that has to make a new reader may borrow a writer from the CURRENT provider — this
+	// ledger — to do so (compressor_pools.go newGzipReader): what passes through the books while the
+	// inner provider is at work belongs to the read, not to a response (sequential use; under
+	// concurrency only the totals are looked at)
+	l.mu.Lock()
+	a0, r0 := l.acq, l.rel
+	l.mu.Unlock()
 	r := l.inner.AcquireGzipReader()
+	l.mu.Lock()
+	l.rdAcq += l.acq - a0 + 1
+	l.rdRel += l.rel - r0
+	l.mu.Unlock()
 	l.out(r)
 	return r
 }
 func (l *Ledger) ReleaseGzipReader(r *gzip.Reader) {
 	l.in(r)
+	l.mu.Lock()
+	l.rdRel++
+	l.mu.Unlock()
 	if !l.Keep {
 		r.Reset(bytes.NewReader(nil))
 	}
